@@ -3,8 +3,8 @@ package main
 // rules_c11.go — C11 (normalisation) and C13 (registration gates, panic-free lookup).
 
 import (
-	"go/constant"
 	"fmt"
+	"go/constant"
 	"go/token"
 	"go/types"
 	"strings"
